@@ -186,3 +186,5 @@ MIR_COORD_ARITH = Ob("C13-V1", "R-BOUND", "type-resolved (MIR): overflow-checked
 MIR_HASH_ITER = Ob("C11-D4", "R-DISC", "type-resolved (MIR): no HashMap/HashSet iteration in library code except sorted-afterwards sites", MO.ob_hash_iteration, floor=1)
 MIR_INPUT_UNWRAPS = Ob("C13-P2", "R-PANIC", "type-resolved (MIR): no unwrap/expect of a parse or I/O Result in the code that consumes the data input (zero-count, positive control elsewhere)", MO.ob_input_unwraps, floor=1)
 MIR_READER_ARITH = Ob("C10-V1", "R-BOUND", "type-resolved (MIR): overflow-checked <=32-bit Add/Mul/Shl in the reader files are each bounded", MO.ob_reader_arithmetic, floor=1)
+CHROM_TREE_KEY_ORDER = Ob("C09-N3", "R-TABLE", "chromosome tree leaf lists its keys in key order", OF.ob_chrom_tree_key_order)
+DEPTH_PRECISION = Ob("C06-P1", "R-STAT", "bigBed coverage depth counter is exact for any number of overlapping entries", OF.ob_depth_precision)
